@@ -4,6 +4,7 @@ import (
 	"context"
 	"fmt"
 	"os"
+	"path/filepath"
 	"runtime/pprof"
 	"strings"
 	"time"
@@ -13,6 +14,7 @@ import (
 	"verif/harness/internal/core"
 	"verif/harness/internal/gen"
 	"verif/harness/internal/hookrt"
+	"verif/harness/internal/legacy"
 	"verif/harness/internal/run"
 	"verif/harness/internal/seq"
 )
@@ -28,7 +30,8 @@ var c17GCHooks = []string{
 }
 
 var c17FailKinds = []string{"index-file-size-mismatch", "primary-file-size-mismatch", "corrupt-index-header", "empty-index-header", "corrupt-primary-header", "unsupported-primary-type",
-	"cancelled-context", "interrupted-translation-leftover", "translation-unreadable-index-file", "translation-fails-double-mismatch", "translation-fails-primary-truncated", "bits-out-of-range", "index-file-size-too-large", "primary-file-size-too-large"}
+	"cancelled-context", "interrupted-translation-leftover", "translation-unreadable-index-file", "translation-fails-double-mismatch", "translation-fails-primary-truncated", "bits-out-of-range", "index-file-size-too-large", "primary-file-size-too-large",
+	"legacy-index-ends-inside-size-prefix", "legacy-index-ends-inside-record"}
 
 func c17Counts(tier string) (closeRandom, gated, flushParked, failing, cycles int) {
 	if tier == "thorough" {
@@ -39,9 +42,9 @@ func c17Counts(tier string) (closeRandom, gated, flushParked, failing, cycles in
 
 func init() {
 	run.Register(&run.Check{
-		ID:              "C17",
-		Level:           "exploration",
-		Race:            true,
+		ID:    "C17",
+		Level: "exploration",
+		Race:  true,
 		Cases: func(tier string) int {
 			a, b, c, d, e := c17Counts(tier)
 			f, g := c17Extra(tier)
@@ -50,7 +53,7 @@ func init() {
 		Run:             runC17,
 		CaseTimeout:     3 * time.Minute,
 		HangIsViolation: true,
-		Rule: "seven families: (1) Close at a PRNG-chosen moment of a history run with the started flusher (1 ms) and background collectors (1-5 ms, with/without time limit) on small files; (2) Close issued while a background GC cycle is parked at a GC hook (each of the index/primary collector and freelist hand-over hook points in turn; the gate is released a few ms after Close passed its entry hook); (3) Close while the flusher is parked inside a flush with rate-limited writers waiting; (4) failing opens (file-size mismatches, corrupt/empty headers, unsupported primary type, cancelled context, interrupted/unreadable translation, illegal sizes) followed by a correct open; (5) 200 open/use/close cycles in one process; (6) scripted descriptor windows: G22 (a read obtains a private handle while the file cache is disabled and gives it back after the cache was enabled and holds another handle of the same file) and G23 (readers while SetFileCacheSize switches the cache off and on), Go's collector switched off so that no finalizer closes a leaked handle, descriptors into the store directory examined after Close; (7) Close that has to write while the write cannot succeed (the next primary file already exists / the next index file is a directory, with or without the flusher having hit the fault first): whatever Close returns, the same post-Close oracle applies, also after a second Close. Oracle after Close returned nil: no hook event of the store fires any more (immediately and after >= 20 GC intervals), no descriptor under the store's directories is open, no goroutine with a go-storethehash frame stays blocked over three goroutine profiles, the directory content hash does not change, and a reopened store shows the model's contents before and after a primary + index GC cycle; after a failed open no new descriptor or store goroutine exists and a correct open finds the contents; counts do not grow over cycles. " +
+		Rule: "seven families: (1) Close at a PRNG-chosen moment of a history run with the started flusher (1 ms) and background collectors (1-5 ms, with/without time limit) on small files; (2) Close issued while a background GC cycle is parked at a GC hook (each of the index/primary collector and freelist hand-over hook points in turn; the gate is released a few ms after Close passed its entry hook); (3) Close while the flusher is parked inside a flush with rate-limited writers waiting; (4) failing opens (file-size mismatches, corrupt/empty headers, unsupported primary type, cancelled context, interrupted/unreadable translation, illegal sizes, legacy-format stores whose index file ends inside a size prefix or inside a record) followed by a correct open; (5) 200 open/use/close cycles in one process; (6) scripted descriptor windows: G22 (a read obtains a private handle while the file cache is disabled and gives it back after the cache was enabled and holds another handle of the same file) and G23 (readers while SetFileCacheSize switches the cache off and on), Go's collector switched off so that no finalizer closes a leaked handle, descriptors into the store directory examined after Close; (7) Close that has to write while the write cannot succeed (the next primary file already exists / the next index file is a directory, with or without the flusher having hit the fault first): whatever Close returns, the same post-Close oracle applies, also after a second Close. Oracle after Close returned nil: no hook event of the store fires any more (immediately and after >= 20 GC intervals), no descriptor under the store's directories is open, no goroutine with a go-storethehash frame stays blocked over three goroutine profiles, the directory content hash does not change, and a reopened store shows the model's contents before and after a primary + index GC cycle; after a failed open no new descriptor or store goroutine exists and a correct open finds the contents; counts do not grow over cycles. " +
 			"non-trivial iff the store had background activity during the case (GC hook events or flusher commits observed) or, for family 4, the failing open was really refused; distinct = family x hook/kind x observed event-order hash",
 		Assumptions: []string{
 			"clients have stopped calling when Close is issued (calls racing with Close are misuse), except rate-limited writers already waiting in family 3",
@@ -421,6 +424,28 @@ func c17FailingOpen(c run.Ctx, res *core.CaseResult, kind string) {
 		if b, err := os.ReadFile(env.IndexPath + ".0"); err == nil && len(b) > 8 {
 			os.WriteFile(env.IndexPath+".0", b[:len(b)/2], 0o644)
 			os.Remove(env.IndexPath + ".buckets")
+		}
+	case "legacy-index-ends-inside-size-prefix", "legacy-index-ends-inside-record":
+		// a legacy-format store whose single index file is torn at its end: the conversion is refused
+		ls := legacy.Generate(r, u, cfg.Bits, 20+r.IntN(30))
+		writeLegacy := func(torn bool) {
+			os.RemoveAll(env.Root)
+			os.MkdirAll(filepath.Dir(env.IndexPath), 0o755)
+			os.MkdirAll(filepath.Dir(env.DataPath), 0o755)
+			t := *ls
+			if torn {
+				if kind == "legacy-index-ends-inside-size-prefix" {
+					t.Index = append(append([]byte{}, ls.Index...), 0x10, 0x00)
+				} else {
+					t.Index = append(append([]byte{}, ls.Index...), 40, 0, 0, 0, 1, 2, 3)
+				}
+			}
+			t.Write(env.IndexPath, env.DataPath)
+		}
+		writeLegacy(true)
+		restore = func() {
+			writeLegacy(false)
+			rn.M = wantModel(c10Case{cfg: cfg, u: u, ls: ls})
 		}
 	case "translation-fails-double-mismatch":
 		// bit size AND index file size differ: the translation cannot open the old index
